@@ -50,6 +50,21 @@ theorem first_model_only (rows : List Row) (recs : List Rec) (h : atomSite rows 
       P2P.Proofs.Pdb.firstModel 1 recs 0 0 = P2P.Proofs.Pdb.atomsOf rs1 :=
   first_model_only_core rows recs h
 
+/-- **The order of the rows of different models is irrelevant** (row order has no meaning in an mmCIF
+loop; round 5): two `atom_site` loops with the same first model number whose first-model rows are
+the same sequence — however the rows of the other models are interleaved with them, polymer of all
+models first, models residue by residue, … — give `Biomolecule` the same atoms. -/
+theorem model_interleaving_irrelevant (rows rows' : List Row) (recs recs' : List Rec)
+    (h : atomSite rows = .ok recs) (h' : atomSite rows' = .ok recs')
+    (hm : (countModels rows).headD [] = (countModels rows').headD [])
+    (hf : rows.filter (·.model = (countModels rows).headD []) = rows'.filter (·.model = (countModels rows).headD [])) :
+    P2P.Proofs.Pdb.firstModel 1 recs 0 0 = P2P.Proofs.Pdb.firstModel 1 recs' 0 0 := by
+  obtain ⟨rs1, e1, f1⟩ := first_model_only rows recs h
+  obtain ⟨rs2, e2, f2⟩ := first_model_only rows' recs' h'
+  rw [← hm, ← hf, e1] at e2
+  cases e2
+  rw [f1, f2]
+
 /-! ### non-vacuity and regression witnesses -/
 
 /-- first atom of tests/data/1FAS.cif as mmcif-pdbx 2.1.0 delivers it -/
